@@ -421,9 +421,20 @@ def run_replay(pid: str, path: str, tier: str) -> int:
     out = mod.evaluate(case, tier)
     print(f"replay {path}: status={out.status} reason={out.reason}")
     if out.status == "fail":
+        from . import findings  # pylint: disable=import-outside-toplevel
+
         print(json.dumps(out.failure, indent=1, default=str)[:3000])
+        fid = findings.match(pid, case.to_json(), out.failure)
+        if fid:
+            known = [f for f in findings.open_for(pid) if f["id"] == fid][0]
+            print(findings.line(known, pid))
+            return 0
         print(f"VIOLATION property={pid} replay={path}")
         return 1
+    for fid in sorted(set(getattr(out, "known", []))):
+        from . import findings  # pylint: disable=import-outside-toplevel
+
+        print(findings.line([f for f in findings.open_for(pid) if f["id"] == fid][0], pid))
     return 0
 
 
